@@ -263,6 +263,11 @@ def c11_r3(ctx):
         splat = [k.value for k in post.keywords if k.arg is None]
         if not (len(splat) == 1 and is_name(splat[0], "kwargs")):
             problems.append("**kwargs not forwarded to post")
+        for bad in ("headers", "content", "json"):
+            if kw(post, bad) is not None:
+                problems.append(f"multipart path passes {bad}= (the multipart boundary Content-Type must be left to the HTTP library)")
+        if outs[0].muts("kwargs"):
+            problems.append("the caller's kwargs mapping is mutated on the multipart path")
         ctx.check(not problems, key(fi, "post"), "; ".join(problems), fi.loc(), okmsg=f"{tag}._execute_multipart posts operations/map/files")
 
 
